@@ -70,7 +70,7 @@ fn guid_upper(g: &GuidM) -> String {
     format!("{:08X}{:04X}{:04X}{}", g.0, g.1, g.2, hex(&g.3, true))
 }
 /// Breakpad form of the debug id: GUID fields upper-hex, then the age lower-hex.
-fn ref_debug_id(cv: &Cv) -> Option<String> {
+fn ref_debug_id(cv: &Cv, be: bool) -> Option<String> {
     match cv {
         // an all-zero GUID identifies nothing ("empty or trivial")
         Cv::Pdb70 { guid, age, .. } => (*guid != (0, 0, 0, [0; 8])).then(|| format!("{}{:x}", guid_upper(guid), age)),
@@ -85,7 +85,14 @@ fn ref_debug_id(cv: &Cv) -> Option<String> {
             for (i, b) in id.iter().take(16).enumerate() {
                 p[i] = *b;
             }
-            let g: GuidM = (u32::from_le_bytes([p[0], p[1], p[2], p[3]]), u16::from_le_bytes([p[4], p[5]]), u16::from_le_bytes([p[6], p[7]]), [p[8], p[9], p[10], p[11], p[12], p[13], p[14], p[15]]);
+            // (known finding F18: in a big-endian dump the same bytes are read as a big-endian GUID, so the id
+            // differs from the little-endian one; each byte order is still held to ITS documented reading, so
+            // that the LE/BE difference — reported separately, once — does not hide any other error here)
+            let g: GuidM = if be {
+                (u32::from_be_bytes([p[0], p[1], p[2], p[3]]), u16::from_be_bytes([p[4], p[5]]), u16::from_be_bytes([p[6], p[7]]), [p[8], p[9], p[10], p[11], p[12], p[13], p[14], p[15]])
+            } else {
+                (u32::from_le_bytes([p[0], p[1], p[2], p[3]]), u16::from_le_bytes([p[4], p[5]]), u16::from_le_bytes([p[6], p[7]]), [p[8], p[9], p[10], p[11], p[12], p[13], p[14], p[15]])
+            };
             Some(format!("{}0", guid_upper(&g)))
         }
         _ => None,
@@ -525,9 +532,7 @@ fn verify(m: &DumpModel, bytes: &[u8], be: bool, mem64: bool, tag: &'static str,
                 v.l.outcome(&format!("version: {}", if ve.is_some() { "Some" } else { "None" }));
                 // F18: for an ELF build id in a big-endian dump the mismatch is reported once, as an
                 // LE/BE difference (below), not a second time as a derivation mismatch
-                if !(be && cvk == "ELF") {
-                    v.eq(&format!("derivation:module.debug_identifier:cv={cvk}"), di.clone(), ref_debug_id(&w.cv));
-                }
+                v.eq(&format!("derivation:module.debug_identifier:cv={cvk}"), di.clone(), ref_debug_id(&w.cv, be));
                 if os != ROs::Open {
                     v.eq(&format!("derivation:module.code_identifier:cv={cvk}"), ci.clone(), ref_code_id(w, os));
                     v.eq("derivation:module.version", ve.clone(), ref_version(w, os));
